@@ -24,10 +24,10 @@ import EmbitModel.Props.C05
     (`None in [..., num_inputs, num_outputs]`); such a stream is not a valid PSBTv2 (BIP370 requires both) —
     see `v2_missing_count_refused`.
 
-  Remark on defaults (version 2): for a missing global tx-version field (02) the view's `tx_version` answers 0
-  whereas the in-memory `PSBT.tx` uses 2 (`self.tx_version or 2`); the theorem is stated for the stored field
-  (`p.txVersion.getD 0`, the view's own default). BIP370 requires the field, so the two defaults are never
-  observable on a valid PSBTv2. For a missing locktime (03) both sides default to 0. For a missing sequence field
+  Remark on defaults (version 2): for a missing global tx-version field (02) the view's `tx_version` answers 2,
+  exactly like the in-memory `PSBT.tx` (`self.tx_version if not None else 2`) — since the C01X `fix:` commit; before
+  it the view answered 0, so `PSBTView.sighash` and `PSBT.sighash` hashed different transactions (finding C01X-D46,
+  see Props/C01X.lean). For a missing locktime (03) both sides default to 0. For a missing sequence field
   (10) the view's `vin(i)` defaults to 0xffffffff exactly like `InputScope.vin` (`InScope.vin`).
 -/
 set_option linter.unusedSimpArgs false
@@ -165,7 +165,7 @@ theorem view_refines_parse_v0_partial (ko : KeyOps) (sha : Bytes → Bytes) (pre
 
 /-- version 2: the same for a PSBTv2 whose global scope carries both counts. `vin(i)` / `vout(j)` of the view are
     the transaction input / output the scope itself describes (`InputScope.vin` / `OutputScope.vout`); locktime and
-    tx version are the stored global fields (default 0, see the remark in the file header) -/
+    tx version are the stored global fields (defaults 0 and 2 — those of `PSBT.tx`, see the remark in the file header) -/
 theorem view_refines_parse_v2_partial (ko : KeyOps) (sha : Bytes → Bytes) (pre post b : Bytes) (p : Psbt)
     (h : Psbt.parse ko sha 0 b = some p) (hv : p.version = some 2)
     (h4 : ∃ x, ([0x04], x) ∈ globalKVs b) (h5 : ∃ x, ([0x05], x) ∈ globalKVs b) :
@@ -174,7 +174,7 @@ theorem view_refines_parse_v2_partial (ko : KeyOps) (sha : Bytes → Bytes) (pre
       ∧ (∀ i, View.vin (pre ++ (b ++ post)) v i = (p.inputs[i]?).bind InScope.vin)
       ∧ (∀ j, View.vout (pre ++ (b ++ post)) v j = (p.outputs[j]?).bind OutScope.vout)
       ∧ View.getLocktime (pre ++ (b ++ post)) v = some (p.locktime.getD 0)
-      ∧ View.getTxVersion (pre ++ (b ++ post)) v = some (p.txVersion.getD 0)
+      ∧ View.getTxVersion (pre ++ (b ++ post)) v = some (p.txVersion.getD 2)
       ∧ (∀ i, View.input ko sha (pre ++ (b ++ post)) v i 0 = p.inputs[i]?)
       ∧ (∀ j, View.output ko (pre ++ (b ++ post)) v j = p.outputs[j]?) := by
   obtain ⟨g, kin, kout, tx, unk, gs, eb, wg, ws, hgf, hpu, hver, etv, elt, _, _, lki, lko, lni, lno, fi, fo, ftx⟩ :=
@@ -432,7 +432,6 @@ example : (View.open exV2Bytes 0).bind (fun v => View.vin exV2Bytes v 0)
     = some { txid := List.replicate 32 7, vout := 1, scriptSig := [], sequence := 0xffffffff, witness := [] } := by
   decide
 
--- GOAL (not proved): write_to_eq_memory — `View.writeTo` parses to sign-then-compress in memory (correspondence
---   `view.write` and harness predicate); unchanged from Props/C05.lean.
+-- write_to_eq_memory: see Props/C05Y.lean.
 
 end Embit.Props.C05X
